@@ -158,6 +158,7 @@ def validate_matcher():
 def run_case(job):
     files, dirs, pats, source, recursive, sched = job[:6]
     auto = job[6] if len(job) > 6 else False
+    variant = job[7] if len(job) > 7 else None
     tree = T(files, dirs)
     box = fsbox.Box("c15")
     msgs = []
@@ -190,7 +191,17 @@ def run_case(job):
             exp = expected(tree, rp, box.root, recursive, auto)
         except Ambiguous:
             return {"viol": [], "obs": None, "nt": None, "n": 0}
-        r = box.run(argv + ["in"], schedule=schedule, user_config=ucfg)
+        if variant == "cwd-elsewhere":
+            # started from a directory that is not above the input tree, input given by its absolute path
+            argv = [a if a != "s.yaml" else box.path("work", "s.yaml") for a in argv]
+            argv[argv.index("-o") + 1] = box.path("work", "out")
+            r = box.run(argv + [box.path("work", "in")], cwd="home", schedule=schedule, user_config=ucfg)
+        elif variant == "two-inputs":
+            # a first input in front of the one under test: the patterns apply to every input
+            box.build({"first/zz.cmake": fsbox.cmake_content("zz.cmake")})
+            r = box.run(argv + ["first", "in"], schedule=schedule, user_config=ucfg)
+        else:
+            r = box.run(argv + ["in"], schedule=schedule, user_config=ucfg)
         outdir = box.path("work", "out")
         if r["status"] != 0:
             msgs.append(f"error: run failed: {r['exc'] or r['stdout'][-200:]}")
@@ -200,6 +211,8 @@ def run_case(job):
                             f"{sorted(box.files('work/out')) or 'empty directory'}")
         else:
             got = set(box.files("work/out")) if os.path.isdir(outdir) else set()
+            if variant == "two-inputs":
+                got -= {"zz.rst"}       # the first input's own page (its index.rst is overwritten by the second input's)
             want = dirmodel.expected_files(exp)
             if got != want:
                 extra, missing = sorted(got - want), sorted(want - got)
@@ -253,6 +266,10 @@ def run(ctx):
         for sched in (None, ("reversed", ())):
             jobs.append((FILES, DIRS, ps, "cli", True, sched, True))
             jobs.append((FILES[:2], ["x1", "y"], ps, "sfile", True, sched, True))
+    for ps in psets:
+        jobs.append((FILES, DIRS, ps, "cli", True, None, False, "cwd-elsewhere"))
+        if not any(p in ("INPUT/", "in", "in/", "i*/", "**/in/", "ANCESTOR/", "*.cmake") for p in ps):
+            jobs.append((FILES, DIRS, ps, "sfile", True, None, False, "two-inputs"))
     # two patterns supplied by two different sources in one run (the source must be irrelevant)
     two = [["k.cmake", "x1/"], ["e*.cmake", "y"], ["ABSF:e2.cmake", "x*/"], ["*.cmake", "**/deep/"], ["m.cmake", "e1.cmake"]]
     for ps in two:
